@@ -129,6 +129,9 @@ def runOp (op : String) : P String := do
   | "tgeq" =>
     let a ← P.tg (α := α); let b ← P.tg
     pure ("ok " ++ Out.bool (a.eq b))
+  | "strip" =>
+    let x ← P.str
+    pure ("ok " ++ Out.str (pyStrip x))
   | "skip" => pure "ok skip"
   | "tg_add" =>
     let g ← P.tg (α := α); let t ← P.anyTier; let i ← P.opt P.int; let r ← P.report
